@@ -51,7 +51,7 @@ func TestMain(m *testing.M) {
 	if os.Getenv("GAE_APPLICATION") == "" {
 		os.Setenv("GAE_APPLICATION", "s~verif")
 	}
-	vh.Main(m, recR, recB, recF)
+	vh.Main(m, recR, recB, recF, recPC, recPP)
 }
 
 var (
